@@ -8,3 +8,6 @@ const VerifOn = false
 
 // VerifEmit is a no-op without the `verif` build tag.
 func VerifEmit(obj string, ev string, kv ...any) {}
+
+// VerifHasGate is false without the `verif` build tag.
+const VerifHasGate = false
